@@ -25,9 +25,11 @@ func sanitizeSelectionSet(ctx *PlanningContext, selectionSet ast.SelectionSet, i
 			result = addSelectionSetToSanitizedResult(result, s)
 		case *ast.FragmentSpread:
 			inlineFragment := &ast.InlineFragment{
-				TypeCondition:    s.Definition.TypeCondition,
-				Directives:       s.Directives,
-				SelectionSet:     s.Definition.SelectionSet,
+				TypeCondition: s.Definition.TypeCondition,
+				Directives:    s.Directives,
+				// a fragment can be spread several times: every usage is sanitized on its own copy,
+				// otherwise the helper fields added for the first usage look client-selected to the next one
+				SelectionSet:     copySelectionSet(s.Definition.SelectionSet),
 				ObjectDefinition: s.ObjectDefinition,
 				Position:         s.Position,
 			}
@@ -59,6 +61,30 @@ func sanitizeSelectionSet(ctx *PlanningContext, selectionSet ast.SelectionSet, i
 	}
 
 	return result, scrubFields
+}
+
+// copySelectionSet copies the selection tree (fields and inline fragments; fragment definitions stay shared)
+func copySelectionSet(selectionSet ast.SelectionSet) ast.SelectionSet {
+	if selectionSet == nil {
+		return nil
+	}
+	res := make(ast.SelectionSet, 0, len(selectionSet))
+	for _, selection := range selectionSet {
+		switch sel := selection.(type) {
+		case *ast.Field:
+			cpy := *sel
+			cpy.SelectionSet = copySelectionSet(sel.SelectionSet)
+			res = append(res, &cpy)
+		case *ast.InlineFragment:
+			cpy := *sel
+			cpy.SelectionSet = copySelectionSet(sel.SelectionSet)
+			res = append(res, &cpy)
+		case *ast.FragmentSpread:
+			cpy := *sel
+			res = append(res, &cpy)
+		}
+	}
+	return res
 }
 
 func sanitizeUnionInlineFragment(ctx *PlanningContext, selectionSet ast.SelectionSet, selection *ast.InlineFragment) ast.SelectionSet {
